@@ -79,6 +79,7 @@ type controller struct {
 	expired    map[int]bool
 	launched   map[string]bool
 	pmap, hmap map[int]int  // specification process id -> harness call number
+	wokePC     map[int]bool // the shutdown call h closed a PacketConn after its select (its wake-up is already counted)
 	deferred   map[int]bool // starter p sits at gate.serve.defer with SDrain already counted
 	dropDrain  map[int]bool
 	diverged   string
@@ -113,6 +114,12 @@ func (c *controller) observe() []label {
 			default:
 				out = append(out, lab("SReturn", e.P))
 			}
+		case "h.sparepc":
+			out = append(out, lab("HSparePC"))
+		case "h.sparelsn":
+			out = append(out, lab("HSpareLsn", e.L))
+		case "h.clearpc":
+			out = append(out, lab("HClearPC"))
 		case "h.break":
 			out = append(out, lab("HBreak"))
 		case "h.fix":
@@ -206,7 +213,7 @@ func (c *controller) observe() []label {
 			}
 		case "pc.setdl":
 			if e.Res == "past" && e.H != 0 {
-				out = append(out, lab("ShCloseL", e.H))
+				out = append(out, lab("ShKickPC", e.H))
 			}
 		case "pc.read":
 			if e.Res == "ok" {
@@ -220,12 +227,13 @@ func (c *controller) observe() []label {
 				if !c.expired[e.H] {
 					out = append(out, lab("ShWake", e.H))
 				}
+				c.wokePC[e.H] = true
 				out = append(out, lab("ShClosePC", e.H))
 			}
 		case "shutdown.unlock":
 			out = append(out, lab("ShUnlock", e.H))
 		case "shutdown.returned":
-			if e.Res == "ok" && c.mode == "tcp" {
+			if e.Res == "ok" && c.mode == "tcp" && !c.wokePC[e.H] {
 				out = append(out, lab("ShWake", e.H))
 			}
 		case "h.setlistener":
@@ -372,6 +380,15 @@ func (c *controller) perform(l label) (fiat []label, ok bool) {
 		return nil, true
 	case "CSendPkt":
 		return nil, c.w.SendPkt() != 0
+	case "HSparePC":
+		c.w.SparePC()
+		return nil, true
+	case "HClearPC":
+		c.w.ClearPC()
+		return nil, true
+	case "HSpareLsn":
+		c.w.SpareListener()
+		return nil, true
 	case "HBreak":
 		c.w.BreakConfig()
 		return nil, true
@@ -454,7 +471,7 @@ func (c *controller) compare(step int, l label, p *proj, plan []planLine) {
 			bad("listener-closed", ls.Closed(), !p.LsnOpen[i])
 		}
 	}
-	if c.mode == "pc" {
+	if w.R.PC != nil {
 		st := w.R.PC.State()
 		if st.Closed != !p.PCOpen {
 			bad("packetconn-closed", st.Closed, !p.PCOpen)
@@ -571,7 +588,7 @@ func (c *controller) finish() bool {
 
 func newController(mode string, sum *hx.Summary, seed int64) *controller {
 	w := NewWorld(mode, seed, true, 0, sum)
-	return &controller{w: w, mode: mode, errNext: map[int]bool{}, inHand: map[int]bool{}, expired: map[int]bool{}, launched: map[string]bool{}, pmap: map[int]int{}, hmap: map[int]int{}, deferred: map[int]bool{}, dropDrain: map[int]bool{}}
+	return &controller{w: w, mode: mode, errNext: map[int]bool{}, inHand: map[int]bool{}, expired: map[int]bool{}, launched: map[string]bool{}, pmap: map[int]int{}, hmap: map[int]int{}, wokePC: map[int]bool{}, deferred: map[int]bool{}, dropDrain: map[int]bool{}}
 }
 
 func replay(mode, plans, out string) {
